@@ -372,6 +372,9 @@ func summarize(def *PropDef, x *sym.Exec, l *sym.Loaded, results []*sym.JobResul
 	ev.Coverage["outside_claim"] = def.Outside
 	ev.Coverage["load_time_s"] = l.LoadTime.Seconds()
 	ev.Coverage["source_hash"] = sourceHash()
+	if def.Level == "other" {
+		ev.Coverage["explanation"] = def.LevelText
+	}
 	if def.Level == "translation_validation" {
 		ev.Coverage["programs"] = len(results)
 		ev.Coverage["disagreements_checked"] = int(violated)
